@@ -19,7 +19,7 @@ import (
 	"go.etcd.io/bbolt/verifh/refdec"
 )
 
-const c19Rule = "clean side: the end state of every generated history must give 0 errors from Tx.Check and exit status 0 from `bbolt check` (every other check of this framework additionally runs Tx.Check after every commit). Corrupt side: for a generated base file with a persisted freelist, every eligible target (quick: up to 6 per class, thorough: all) of each class is corrupted with the independent decoder's byte patchers: (1) unreachable-unfreed: an id dropped from the freelist page; (2) reachable-freed: the id of a reachable page added to the freelist page - first page of a node AND an overflow page of a node; (3) referenced twice: a branch element or a bucket root retargeted to a sibling; (4) freed twice: a freelist id duplicated; (5) invalid type: flags of a reachable page set to 0x00 / 0x20 / 0x03; (6) key order: two equal-length keys of a leaf swapped, a key made equal to its predecessor, a leaf's first key made smaller than its parent separator (far below and minimally below), a leaf's last key raised to the separator of its next sibling, two branch keys swapped. Only mutations that keep every offset inside the file are generated. Oracle: the independent decoder must confirm an anomaly on the mutated file (sanity of the construction), then Tx.Check (read-write open with default options; read-only open with preloaded freelist, as the CLI opens it) must report >=1 error and `bbolt check` must exit non-zero. Non-trivial = every (base, class, target) triple; distinct by triple."
+const c19Rule = "clean side: the end state of every generated history must give 0 errors from Tx.Check and exit status 0 from `bbolt check` (every other check of this framework additionally runs Tx.Check after every commit). Corrupt side: for a generated base file with a persisted freelist, every eligible target (quick: up to 6 per class, thorough: all) of each class is corrupted with the independent decoder's byte patchers: (1) unreachable-unfreed: an id dropped from the freelist page; (2) reachable-freed: the id of a reachable page added to the freelist page - first page of a node AND an overflow page of a node; (3) referenced twice: a branch element or a bucket root retargeted to a sibling; (4) freed twice: a freelist id duplicated; (5) invalid type: flags of a reachable page set to 0x00 / 0x20 / 0x03; (6) key order: two equal-length keys of a leaf swapped, a key made equal to its predecessor, a leaf's first key made smaller than its parent separator (far below and minimally below), a leaf's last key raised to the separator of its next sibling, two branch keys swapped. Only mutations that keep every offset inside the file are generated. Oracle: the independent decoder must confirm an anomaly on the mutated file (sanity of the construction), then Tx.Check (database opened read-write with default options; read-only with preloaded freelist, as the CLI opens it; read-only with the hash-map freelist backend) must report >=1 error and `bbolt check` must exit non-zero. Non-trivial = every (base, class, target) triple; distinct by triple."
 
 type c19Mut struct {
 	Class  string `json:"class"`
@@ -237,12 +237,27 @@ func c19Mutations(f *refdec.File, perClass int, pick func(n int) int) []c19Mut {
 
 // libCheck opens path and returns the number of problems Tx.Check reports (Open failure / panic counts as 1, flagged).
 func libCheck(path string, ro bool) (n int, openFailed bool) {
+	return libCheckWith(path, &bolt.Options{ReadOnly: ro, PreLoadFreelist: ro})
+}
+
+// c19Handles: the ways the file is opened for the library check - read-write with default options, read-only with
+// a preloaded free list (as the command-line tool does), and read-only with the hash-map free list backend.
+var c19Handles = []struct {
+	name string
+	opts bolt.Options
+}{
+	{"read-write, default options", bolt.Options{}},
+	{"read-only, preloaded free list", bolt.Options{ReadOnly: true, PreLoadFreelist: true}},
+	{"read-only, hash-map free list", bolt.Options{ReadOnly: true, PreLoadFreelist: true, FreelistType: bolt.FreelistMapType}},
+}
+
+func libCheckWith(path string, o *bolt.Options) (n int, openFailed bool) {
 	defer func() {
 		if r := recover(); r != nil {
 			n, openFailed = 1, true
 		}
 	}()
-	db, err := bolt.Open(path, 0600, &bolt.Options{ReadOnly: ro, PreLoadFreelist: ro})
+	db, err := bolt.Open(path, 0600, o)
 	if err != nil {
 		return 1, true
 	}
@@ -324,14 +339,15 @@ func c19One(e *drv.Env, base *refdec.File, mu c19Mut, withCLI bool) (*drv.Violat
 		return nil, labels
 	}
 	p := filepath.Join(e.Dir, "mut.db")
-	for _, ro := range []bool{false, true} {
+	for _, h := range c19Handles {
 		_ = os.WriteFile(p, g.Data, 0o600)
-		n, openFailed := libCheck(p, ro)
+		o := h.opts
+		n, openFailed := libCheckWith(p, &o)
 		if openFailed {
 			labels["open-failed-or-panicked"] = 1
 		}
 		if n == 0 {
-			return drv.Violf("class %s, %s: Tx.Check (readonly+preload=%v) reports no problem; the independent decoder reports %v", mu.Class, mu.Target, ro, ga.Anomalies), labels
+			return drv.Violf("class %s, %s: Tx.Check (database opened %s) reports no problem; the independent decoder reports %v", mu.Class, mu.Target, h.name, ga.Anomalies), labels
 		}
 	}
 	if withCLI {
